@@ -164,7 +164,14 @@ func (iq *IndexQuery) FetchCollection(db *badger.DB) ([]res.Ref, error) {
 		opts.Reverse = iq.Reverse
 		it := txn.NewIterator(opts)
 		defer it.Close()
-		for it.Seek(queryPrefix); it.ValidForPrefix(queryPrefix); it.Next() {
+		seek := queryPrefix
+		if iq.Reverse {
+			// When iterating in reverse, Seek finds the largest key less than
+			// or equal to the seek key. Append 0xFF to start after the last
+			// key having the prefix, instead of before the first.
+			seek = append(append(make([]byte, 0, qplen+1), queryPrefix...), 0xFF)
+		}
+		for it.Seek(seek); it.ValidForPrefix(queryPrefix); it.Next() {
 			k := it.Item().Key()
 			idx := bytes.LastIndexByte(k, ridSeparator)
 			if idx < 0 {
